@@ -5,6 +5,7 @@ From Coq Require Import String.
 From Coq Require Extraction.
 From Coq Require ExtrOcamlBasic.
 From Ldlm Require Import Model.Base Model.Err Model.Seq Model.Track.
+From Ldlm Require Import Gen.ErrTables.
 
 Definition tags_bytes (l : list (nat * string)) : list (nat * list byte) :=
   map (fun '(i, t) => (i, list_byte_of_string t)) l.
@@ -14,5 +15,128 @@ Definition byte_to_N := Byte.to_N.
 Definition byte_of_N := Byte.of_N.
 Definition err_name_b (e : err) : list byte := list_byte_of_string (err_go_name e).
 
+(** ** T1 "via service" (history line [V service])
+
+    The history was executed through the real [grpc.Service] (net/grpc/grpc.go): what comes back for Lock / TryLock /
+    Unlock / Renew and for a parked Lock call that completes is a protobuf response whose error is an [Error{Code,
+    Message}], not a Go error value. The harness writes the CODE name where the direct mode writes the name of the Go
+    error variable. Both sides are therefore compared modulo [srv_code] — the server-side switch REGENERATED from the
+    tree under test (Gen/ErrTables.v) on every run:
+
+    - the driver turns an observed code [c] into [code_repr c], the first error value of [all_errs] that the switch maps
+      to [c] (its class representative);
+    - [replay_svc] is [Track.replay] with every error in a response / completion the MODEL produces replaced by the
+      representative of its class ([canon_out]). So an observed response is accepted iff its bit, key, ... agree under
+      the projection and its code is [srv_code] of the model's error value.
+    - errors of the admin socket ([OIpcUnlock]) do not pass through the service: they stay Go error values.
+
+    The trace oracle ([Track.track_step]) has clauses that read the identity of an error value (C12:wrong-refusal,
+    C14:wrong-unlock-error, C14:wrong-renew-error, C03:wrong-giveup-cause, C03:wait-timeout-not-at-deadline,
+    C13:valid-request-failed, C04:renew-of-unleased-hold, and mem_step's InvalidLockKey). Through the service the
+    identity is not observable, only the class. [concretise] picks, output by output, the error value OF THE OBSERVED
+    CLASS under which the fewest checks of this event fail (first such value in the order of [all_errs]); [track_svc]
+    feeds the concretised outputs to the unchanged [track_step]. A clause that expects a particular error value is thus
+    satisfied iff the observed code is the code of that value ("the expected error is among the values with that code"),
+    and fails — with the same tag — iff no value of the class satisfies it. Within one event each such clause reads ONE
+    output (the first response, or one completion), so choosing output by output loses nothing. The tracker's state after
+    the event does not depend on the choice except through [mem_step]'s test for [ELockInvalidLockKey]; with the table
+    of the unchanged tree that value is alone in its class.
+
+    What this mode cannot see: error values with the same code are indistinguishable. With the unchanged tree these are
+    all the values mapped to Unknown (EmptyName, SessionDoesNotExist, InvalidLockTimeout, InvalidWaitTimeout,
+    ManagerShutdown, context.Canceled, context.DeadlineExceeded, any other value), and the pair
+    server.ErrLockDoesNotExistOrInvalidKey / timermap.ErrTimerDoesNotExist. The direct mode (error identity) keeps
+    covering those. When the translator did not recognise the switch or the enum, [srv_code] is the degenerate constant
+    table: every error value is in one class and the comparison is on the PRESENCE of an error only. *)
+
+Definition svc_tables_ok : bool := (enum_recognised && srv_table_recognised)%bool.
+
+Definition code_class (c : code) : list err := List.filter (fun e => bool_decide (srv_code e = c)) all_errs.
+Definition code_repr (c : code) : option err := head (code_class c).
+Definition canon_err (e : err) : err := default e (code_repr (srv_code e)).
+
+Definition map_resp_err (f : err -> err) (r : resp) : resp :=
+  match r with
+  | RLock l k e => RLock l k (f <$> e)
+  | RUnlock u e => RUnlock u (f <$> e)
+  | RBlocked => RBlocked
+  end.
+(** only what came through the service: responses and completions of parked calls *)
+Definition map_out_err (f : err -> err) (o : out) : out :=
+  match o with
+  | OResp r => OResp (map_resp_err f r)
+  | OWaiter w a r => OWaiter w a (map_resp_err f r)
+  | _ => o
+  end.
+Definition canon_out : out -> out := map_out_err canon_err.
+
+Fixpoint replay_svc (p : proj) (cfg : config) (cands : list sstate) (h : list (event * list out)) (i : nat)
+  : option (nat * list (list out)) :=
+  match h with
+  | [] => None
+  | (ev, obs) :: h' =>
+      let nexts := flat_map (fun s => sstep cfg s ev) cands in
+      match List.filter (fun '(_, o) => outs_eqb p (map canon_out o) obs) nexts with
+      | [] => Some (i, map (fun x => map canon_out (snd x)) nexts)
+      | ok => replay_svc p cfg (map fst ok) h' (S i)
+      end
+  end.
+Definition replay_history_svc (p : proj) (cfg : config) (h : list (event * list out)) :=
+  replay_svc p cfg [init_state cfg] h 0.
+
+Definition out_err (o : out) : option err :=
+  match o with OResp r | OWaiter _ _ r => err_of r | _ => None end.
+
+Definition nfail (cfg : config) (i : nat) (ev : event) (outs : list out) (t : tstate) : nat :=
+  length (t_fail (track_step cfg i ev outs t)).
+
+(** the first candidate with the fewest failed checks ([cur] scores [curs]) *)
+Fixpoint best_err (score : err -> nat) (cands : list err) (cur : err) (curs : nat) : err :=
+  match cands with
+  | [] => cur
+  | e :: r => let s := score e in if Nat.ltb s curs then best_err score r e s else best_err score r cur curs
+  end.
+
+Fixpoint concretise (cfg : config) (i : nat) (ev : event) (t : tstate) (done todo : list out) : list out :=
+  match todo with
+  | [] => done
+  | o :: rest =>
+      match out_err o with
+      | None => concretise cfg i ev t (done ++ [o]) rest
+      | Some e =>
+          let score := fun e' => nfail cfg i ev (done ++ map_out_err (fun _ => e') o :: rest) t in
+          let b := best_err score (code_class (srv_code e)) e (score e) in
+          concretise cfg i ev t (done ++ [map_out_err (fun _ => b) o]) rest
+      end
+  end.
+
+Fixpoint track_svc (cfg : config) (i : nat) (h : list (event * list out)) (t : tstate) : tstate :=
+  match h with
+  | [] => t
+  | (ev, outs) :: h' => track_svc cfg (S i) h' (track_step cfg i ev (concretise cfg i ev t [] outs) t)
+  end.
+Definition track_failures_svc (cfg : config) (h : list (event * list out)) : list (nat * string) :=
+  rev (t_fail (track_svc cfg 0 h t_init)).
+Definition track_failures_svc_b cfg h := tags_bytes (track_failures_svc cfg h).
+
+Definition code_name_b (c : code) : list byte := list_byte_of_string (code_name c).
+(** the code an observed name stands for; with unrecognised tables every name is the one degenerate class *)
+Definition code_of_name_b (n : list byte) : option code :=
+  if svc_tables_ok then head (List.filter (fun c => bool_decide (code_name_b c = n)) all_codes) else Some srv_default.
+
 Extraction "seqmodel.ml" replay_history track_failures_b inert_failures_b byte_to_N byte_of_N err_name_b all_errs
-  proj_all Proj Config.
+  proj_all Proj Config
+  replay_history_svc track_failures_svc_b srv_code code_name_b code_of_name_b code_repr code_class all_codes svc_tables_ok.
+
+(** Sanity of the class representatives, for whatever table was generated: the representative of an error's class has
+    the error's code (so [canon_out] never changes a code), and it is idempotent. *)
+Lemma canon_err_code e : srv_code (canon_err e) = srv_code e.
+Proof.
+  unfold canon_err, code_repr, code_class.
+  assert (Hin : In e all_errs) by (destruct e; cbn; tauto).
+  induction all_errs as [|x l IH]; [destruct Hin|].
+  cbn [List.filter]. destruct (bool_decide (srv_code x = srv_code e)) eqn:Hx.
+  - cbn. now apply bool_decide_eq_true in Hx.
+  - destruct Hin as [->|Hin]; [|now apply IH].
+    apply bool_decide_eq_false in Hx. now destruct Hx.
+Qed.
